@@ -200,20 +200,24 @@ func vfH_C11_overlap() {
 	vfrt.Assert(p.Shutdown(context.Background()) == nil, "overlap/shutdown-succeeds-once-every-connection-finished")
 }
 
-//vf:assume C11-tunnel: a CONNECT tunnel is established when shutdown begins (at the target's first or second read); the tunnel carries 0..2 symbolic bytes each way
+//vf:assume C11-tunnel: a CONNECT tunnel is established when shutdown begins (at the target's first or second read, quick; first..fifth, thorough); the tunnel carries 0..2 (quick) / 0..5 (thorough) symbolic bytes each way
 
 //vf:harness property=C11 nopanic reach=tunnel-shutdown-first-read,tunnel-shutdown-second-read steps=8000000
 func vfH_C11_tunnel() {
 	rt := &vfRT{}
 	p := &Proxy{RoundTripper: rt, WithoutWarning: true}
 	p.init()
-	up := vfrt.Bytes("client-payload", vfrt.Choice("client-len", 3))
-	down := vfrt.Bytes("target-payload", vfrt.Choice("target-len", 3))
+	max := 2
+	if vfrt.Thorough() {
+		max = 5
+	}
+	up := vfrt.Bytes("client-payload", vfrt.Choice("client-len", max+1))
+	down := vfrt.Bytes("target-payload", vfrt.Choice("target-len", max+1))
 	target := NewVfConn(down)
 	target.Chunk = 1
 	p.DialContext = func(context.Context, string, string) (net.Conn, error) { return target, nil }
 	client := NewVfConn(append([]byte("CONNECT example.com:443 HTTP/1.1\r\nHost: example.com:443\r\n\r\n"), up...))
-	at := 1 + vfrt.Choice("shutdown-at-target-read", 2)
+	at := 1 + vfrt.Choice("shutdown-at-target-read", max)
 	began := false
 	var openDuring int32
 	target.OnRead = func(call int) {
@@ -230,7 +234,7 @@ func vfH_C11_tunnel() {
 	if at == 1 {
 		vfrt.Reach("tunnel-shutdown-first-read")
 	} else {
-		vfrt.Reach("tunnel-shutdown-second-read")
+		vfrt.Reach("tunnel-shutdown-second-read") // or a later one (thorough tier)
 	}
 	vfrt.Assert(openDuring == 1, "tunnel/tunnelled-connection-counted-open-during-shutdown")
 	// the exchange that had reached its target completes normally: both directions are delivered in full
